@@ -7,6 +7,7 @@ import (
 	"encoding/json"
 	"fmt"
 	"net/http"
+	"net/http/httptest"
 	"strings"
 	"sync"
 	"time"
@@ -212,6 +213,142 @@ func suiteShimLife(e *vh.Env) {
 			e.Sample(map[string]interface{}{"case": i, "steps": steps, "closed": closed, "backend_closed": bclosed})
 		}
 		s.shut()
+	}
+	shimPushOnlyClose(e, n)
+	shimOverlappingOpens(e, n+100)
+}
+
+// shimPushOnlyClose: a backend that only ever writes (it never reads, so it never answers a close frame).
+// Closing the session must still close the backend websocket: the backend's writes start failing.
+func shimPushOnlyClose(e *vh.Env, base int) {
+	for k := 0; k < e.N(2, 20); k++ {
+		if !e.Want(base + k) {
+			continue
+		}
+		writeFailed := make(chan struct{})
+		up := websocket.Upgrader{}
+		srv := httptest.NewServer(http.HandlerFunc(func(w http.ResponseWriter, r *http.Request) {
+			c, err := up.Upgrade(w, r, nil)
+			if err != nil {
+				return
+			}
+			defer c.Close()
+			for j := 0; ; j++ {
+				c.SetWriteDeadline(time.Now().Add(time.Second))
+				if err := c.WriteMessage(websocket.TextMessage, []byte(fmt.Sprintf("tick %d", j))); err != nil {
+					close(writeFailed)
+					return
+				}
+				time.Sleep(15 * time.Millisecond)
+			}
+		}))
+		ident := func(h http.Handler, _ *metrics.MetricHandler) http.Handler { return h }
+		ctx, cancel := context.WithCancel(context.Background())
+		h, _ := websockets.Proxy(ctx, http.NotFoundHandler(), strings.TrimPrefix(srv.URL, "http://"), "shimpath", false, false, ident, nil)
+		code, body := shimCall(h, "open", "ws://whatever/push", nil)
+		var open struct {
+			ID string `json:"id"`
+		}
+		if code != 200 || json.Unmarshal([]byte(body), &open) != nil {
+			e.Fail("C12:open-failed", fmt.Sprintf("open: %d %s", code, body), base+k, nil, nil, nil)
+		} else {
+			shimCall(h, "poll", `{"id":"`+open.ID+`"}`, nil)
+			done := make(chan int, 1)
+			go func() { c, _ := shimCall(h, "close", `{"id":"`+open.ID+`"}`, nil); done <- c }()
+			select {
+			case c := <-done:
+				if c != 200 {
+					e.Fail("C12:close-status", fmt.Sprintf("close of a session whose backend only writes answered %d", c), base+k, nil, c, 200)
+				}
+			case <-time.After(10 * time.Second):
+				e.Fail("C12:call-never-answered", "close of a session whose backend only writes did not return within 10 s", base+k, nil, nil, nil)
+			}
+			select {
+			case <-writeFailed:
+			case <-time.After(3 * time.Second):
+				e.Fail("C12:close-did-not-close-backend", "the session was closed (backend that only writes and never reads): the backend could still write to its websocket 3 s later", base+k, nil, nil, nil)
+			}
+			if c, _ := shimCall(h, "poll", `{"id":"`+open.ID+`"}`, nil); c != 400 {
+				e.Fail("C12:poll-after-close", fmt.Sprintf("poll after close answered %d", c), base+k, nil, c, 400)
+			}
+		}
+		cancel()
+		srv.CloseClientConnections()
+		srv.Close()
+		e.Eval(fmt.Sprintf("push-only-%d", k), true)
+		e.Count("push-only-backend-close")
+	}
+}
+
+// shimOverlappingOpens: an open that fails (the backend refuses the websocket after a delay) overlaps an open
+// that succeeds; sessions opened afterwards must not collide with the live one.
+func shimOverlappingOpens(e *vh.Env, base int) {
+	for k := 0; k < e.N(3, 30); k++ {
+		if !e.Want(base + k) {
+			continue
+		}
+		be := newWsBackend()
+		inner := be.srv.Config.Handler
+		be.srv.Config.Handler = http.HandlerFunc(func(w http.ResponseWriter, r *http.Request) {
+			if strings.HasPrefix(r.URL.Path, "/refuse") {
+				time.Sleep(150 * time.Millisecond)
+				http.Error(w, "no", http.StatusForbidden)
+				return
+			}
+			inner.ServeHTTP(w, r)
+		})
+		ident := func(h http.Handler, _ *metrics.MetricHandler) http.Handler { return h }
+		ctx, cancel := context.WithCancel(context.Background())
+		h, _ := websockets.Proxy(ctx, http.NotFoundHandler(), be.host(), "shimpath", false, false, ident, nil)
+		idOf := func(body string) string {
+			var open struct {
+				ID string `json:"id"`
+			}
+			json.Unmarshal([]byte(body), &open)
+			return open.ID
+		}
+		failing := make(chan int, 4)
+		nfail := 1 + k%3
+		for j := 0; j < nfail; j++ {
+			go func() { c, _ := shimCall(h, "open", "ws://whatever/refuse", nil); failing <- c }()
+		}
+		time.Sleep(30 * time.Millisecond)
+		cb, bodyB := shimCall(h, "open", "ws://whatever/live", nil)
+		idB := idOf(bodyB)
+		connB := <-be.conns
+		for j := 0; j < nfail; j++ {
+			if c := <-failing; c == 200 {
+				e.Fail("C07:refused-open-succeeded", "an open whose backend refused the websocket answered 200", base+k, nil, nil, nil)
+			}
+		}
+		var later []string
+		for j := 0; j < 2; j++ {
+			_, bodyC := shimCall(h, "open", "ws://whatever/later", nil)
+			later = append(later, idOf(bodyC))
+			<-be.conns
+		}
+		if cb != 200 || idB == "" {
+			e.Fail("C12:open-failed", fmt.Sprintf("open: %d %s", cb, bodyB), base+k, nil, nil, nil)
+		}
+		for _, idC := range later {
+			if idC == idB {
+				e.Fail("C07:session-id-reused", fmt.Sprintf("%d opens failed while session %q was being established; a session opened afterwards was given the same ID %q, so the two clients now share one table entry", nfail, idB, idC), base+k, nil, idC, nil)
+			}
+		}
+		// B's data must still arrive on B's backend connection
+		connB.SetReadDeadline(time.Now().Add(2 * time.Second))
+		before := len(be.received())
+		shimCall(h, "data", `[{"id":"`+idB+`","msg":"for-B"}]`, nil)
+		be.waitRecv(before + 1)
+		r := be.received()
+		if len(r) != before+1 || string(r[len(r)-1].data) != "for-B" {
+			e.Fail("C07:healthy-session-disturbed", fmt.Sprintf("after %d failed opens, data posted on the live session %q did not reach the backend exactly once", nfail, idB), base+k, nil, nil, nil)
+		}
+		cancel()
+		be.srv.CloseClientConnections()
+		be.srv.Close()
+		e.Eval(fmt.Sprintf("overlapping-opens-%d", k), true)
+		e.Count("overlapping-failed-opens")
 	}
 }
 
